@@ -75,6 +75,8 @@ def run(W, chk):
     else:
         chk.fail("PROV-claim-recorded", "claim", "anchors missing: sends %d, FARMS writes %d" % (len(sends), len(fu)), A.entry)
 
+    from rules.C09 import uniq_owners
+    uniq_owners(chk, W.run(FM, "execute", ("ManagePosition", ".action", "Withdraw")))
     # ---- close: refund and removal (shared with C11)
     for vp in (("ManageFarm", ".action", "Close"), ("ManageFarm", ".action", "Create")):
         A = W.run(FM, "execute", vp)
